@@ -28,7 +28,7 @@ import numpy as np
 PROPERTY = 'C14'
 TIMEOUT = 60.0
 CHUNK = 16
-FLOOR = 0.45
+FLOOR = 0.5
 RULE = ('every LP of the grammar {front end} x {n<=3} x {sense mix of 1..B row blocks of 1-2 rows} x {block style} x '
         '{Bounds pattern} x {bounds/guard position} x {min,max} x {objective direction} x {default, ECOS, Gurobi}; '
         'a case is non-trivial when the solve is optimal, all identities were evaluated, and at least one enumerated '
@@ -344,8 +344,10 @@ def _shape_ok(d, k):
 
 
 def _sig(case, what):
-    """Stable signature: front end, block structure, bound pattern, direction, interface, failing identity."""
-    s = '%s|%s|%s|%s|%s|%s' % (case['fe'], case['tag'], case['style'], case['dir'], case['iface'], what)
+    """Stable signature: front end, writing style, sense mix, bound pattern, direction, interface, failing identity."""
+    blocks, bpat = case['tag'].split('|')[:2]
+    senses = '+'.join(b.lstrip('0123456789') for b in blocks.split('+'))
+    s = '%s|%s|senses:%s|bounds:%s|%s|%s|%s' % (case['fe'], case['style'], senses, bpat, case['dir'], case['iface'], what)
     if case.get('pre'):
         s += '|after:' + case['pre']
     return s
